@@ -6,7 +6,8 @@ props = [json.loads(l) for l in open(os.path.join(ROOT, "properties.jsonl"))]
 
 TIE = ("Tie to /repo, re-established on every run, in two ways. (a) Translator: tools/srcfacts re-translates the current text of src/portable.rs "
        "(all of it: new, update, permute, zipper merge, modular reduction, remainder, data_to_lanes, update_remainder, finalize64/128/256, append, "
-       "checkpoint, from_checkpoint), HashPacket of src/internal.rs, and the SIMD kernels + vector wrapper types of the four SIMD backends into "
+       "checkpoint, from_checkpoint), HashPacket and unordered_load3 of src/internal.rs, the WHOLE of src/wasm.rs (all 47 functions incl. finalize, append, "
+       "remainder, checkpoint, from_checkpoint; only the 20 wasm32 instructions get their meaning from a table), and the SIMD kernels + vector wrapper types of the other SIMD backends into "
        "deep-embedded abstract syntax (gen/Src*.v); theorems SRC_* (Properties/SourceKernel*.v) prove that the Coq interpreters of that syntax "
        "compute exactly the hand-written model, function by function, for all states, arguments, slices and build profiles. (b) Correspondence: "
        "the extracted model (OCaml, ExtrOcamlBasic only) and the real crate, rebuilt from the working tree with hooks on, execute the same "
@@ -44,7 +45,9 @@ T = {
  "C03": ("proof", "Theorems C03_neon_equals_portable / C03_checkpoints_interchangeable on the NEON model (full refinement proof). Tie: the real src/aarch64.rs "
          "executed under Miri (aarch64-unknown-linux-gnu) against the extracted model.", "6 C03"),
  "C04": ("proof", "Theorems C04_wasm_equals_portable / C04_checkpoints_interchangeable on the Wasm model (full refinement proof, mirrored lane order). Tie: the real "
-         "src/wasm.rs executed under Miri (wasm32-unknown-unknown +simd128, no_std) against the extracted model.", "6 C04"),
+         "src/wasm.rs executed under Miri (wasm32-unknown-unknown +simd128, no_std) against the extracted model; and the translator: every function of the current "
+         "src/wasm.rs, re-translated on each run, is proved equal to the model (SRCW_*), and the interpreted wasm.rs is proved to compute HighwayHash, to agree with "
+         "the interpreted portable.rs, and to write / restore the same 164 checkpoint bytes (SRCW_source_*).", "6 C04"),
  "C10": ("proof", "Theorems over the dispatcher model and the ladder regenerated from src/builder.rs (gen/Ladder.v): exhaustive over every configuration.", "6 C10"),
  "C16": ("proof", "Theorem over regenerated syntax facts (gen/SrcFacts.v), evaluated by the kernel.", "6 C16"),
  "C17": ("proof", "Facts theorem + the portable model has no target parameter; tie: Miri on big-endian / 32-bit targets.", "6 C17"),
